@@ -39,6 +39,8 @@ ASSUMPTIONS = ['float64 data on the enumerated grids (uniform and quadratically 
                'documented statuses: -2, -1, 0 or a positive integer; -1 must come with at least one newly masked breakpoint, other statuses with an unchanged mask',
                'status 0 is read as "success": whenever the least-squares problem on the surviving breakpoints is unique and well conditioned (oracle: full rank, cond <= 1e4) the returned spline must be that solution - also when a segment is empty but the rank is full through its neighbours, and after breakpoints were dropped',
                'repeated fits on one object: interior abscissae moved by +0.3/-0.2 of the local gap, same length and end points; each fit is judged against the dense solution of its own data']
+ASSUMPTIONS += ['y is finite everywhere; at zero-weight points it is altered by +1000 and replaced by huge finite sentinels (+-1e20, 1e25, +-1e30, +-float64 max, -9999), on all zero-weight points and on each one alone; NaN/inf at zero weight is outside the claim (HEAD raises ValueError from scipy there - see findings/C09.md)',
+                'x, y and invvar are also handed over as strided views, columns of 2-D arrays, negative-stride views, big-endian, float32 (oracle on the rounded values, cond <= 100, tolerance 1e-5 + 3e-7*cond^2) and read-only arrays, one argument at a time and all three together']
 
 COND_MAX = 1e4
 SENTINELS = {'1e20': 1e20, '-1e20': -1e20, '1e25': 1e25, '1e30': 1e30, '-1e30': -1e30,
@@ -269,6 +271,52 @@ def status0_optimal(s, k, x, y, w, stage):
         return [('fit:status0-but-not-lstsq-on-surviving-breakpoints:' + stage,
                  'breakpoint mask %s cond %.3g max diff %.3g' % (m.astype(int).tolist(), cond, min(float(np.max(np.abs(v - r)[g])) for r in refs)))]
     return []
+
+
+# ------------------------------------------------------------------ part Y: memory layout / dtype of x, y, invvar
+@_bsp.guarded(lambda bad: (bad, 'bad:check-exception', None))
+def check_layout(case):
+    """fit() with x, y or invvar (or all three) handed over as a strided view, a column of a 2-D array, a negative-stride
+    view, big-endian, float32 or read-only.  Same values => same dense-lstsq coefficients; inputs untouched.
+    -> (bad, outcome, skip_reason)"""
+    x0, s = make_sset(case)
+    k = case['k']
+    t = np.asarray(s.breakpoints, dtype=np.float64)
+    w0 = weights(len(x0), case['zero'], case['wpat'])
+    y0 = rhs_vector(['generic'], x0, w0)
+    name, which = case['layout']
+    arrs = {}
+    for key, a in (('x', x0), ('y', y0), ('w', w0)):
+        arrs[key] = _bsp.layout(a, name) if which in (key, 'all') else a.copy()
+    xe, ye, we = (np.asarray(arrs[key], dtype=np.float64) for key in ('x', 'y', 'w'))     # the values actually passed
+    well, cond, (Ar, Al) = classify(t, k, xe, we)
+    f32x = name == 'float32' and which in ('x', 'all')
+    if not well or (f32x and cond > 100):
+        return [], 'skip', 'layout layer: not well-posed (or cond > 100 with float32 abscissae)'
+    keep = {key: (arrs[key].tobytes(), arrs[key].dtype, arrs[key].strides) for key in arrs}
+    tag = 'fit:layout:%s:%s' % (name, which)
+    try:
+        with warnings.catch_warnings():
+            warnings.simplefilter('ignore')
+            st, yfit = s.fit(arrs['x'], arrs['y'], arrs['w'])
+    except Exception as e:
+        return [('%s:exception:%s@%s' % (tag, type(e).__name__, where_raised(e.__traceback__)), repr(e))], 'bad:exception', None
+    if _status_kind(st) != 0:
+        return [(tag + ':status!=0', 'status %r' % (st,))], 'bad:status', None
+    bad = []
+    c = np.asarray(s.coeff, dtype=np.float64)
+    errs = []
+    for A in ((Ar, Al) if k == 1 else (Ar,)):
+        ref = _bsp.wlsq(A, ye, we)[0]
+        scale = max(1.0, float(np.max(np.abs(ye[we > 0]))), float(np.max(np.abs(ref))))
+        errs.append((float(np.max(np.abs(c - ref))) if c.shape == ref.shape and np.all(np.isfinite(c)) else np.inf) / scale)
+    tol = (1e-5 + 3e-7 * cond * cond) if f32x else (1e-11 + 1e-13 * cond * cond)
+    if not min(errs) <= tol:
+        bad.append((tag + ':coeff!=lstsq', 'relative diff %.3g tol %.3g cond %.3g' % (min(errs), tol, cond)))
+    for key in arrs:
+        if (arrs[key].tobytes(), arrs[key].dtype, arrs[key].strides) != keep[key]:
+            bad.append((tag + ':input-modified:' + key, ''))
+    return bad, ('ok:layout:%s:%s' % (name, which)) if not bad else 'bad:' + bad[0][0], None
 
 
 # ------------------------------------------------------------------ part R: several fits on one object
@@ -629,6 +677,17 @@ def run_task(task):
                         csum = csum + yg[r[1]] * c
                     else:
                         got[r[0]] = c
+                if tuple(z) in ((), (2,), (0, n - 1)) or (task.get('tier') == 'thorough' and len(z) <= 2):
+                    for name in _bsp.LAYOUTS[1:]:
+                        for which in ('x', 'y', 'w', 'all'):
+                            case = dict(base, part='Y', layout=[name, which])
+                            bad, out, skip = check_layout(case)
+                            if skip:
+                                acc.skip(skip)
+                                continue
+                            acc.case(_bsp.ckey(case), True, out, sample=None)
+                            for sig, msg in bad:
+                                acc.violation(sig, case, msg)
                 case = dict(base, part='R')
                 bad, out = check_refit(case)
                 acc.case(_bsp.ckey(case), True, out, sample=None)
@@ -648,6 +707,8 @@ def replay(case):
         return check_chol(case)
     if case['part'] == 'I':
         return check_illposed(case)[0]
+    if case['part'] == 'Y':
+        return check_layout(case)[0]
     if case['part'] == 'R':
         return check_refit(case)[0]
     if case['part'] == 'L':
